@@ -188,6 +188,11 @@ def run(chk):
         (d / "wrap.utb").write_text("include p1.utb\ninclude p2.utb\n")
         names["list"] = "%s,%s" % (d / "p1.utb", d / "p2.utb")
         names["wrapper"] = str(d / "wrap.utb")
+        # the operand of include is a string like any other: a character of the file name spelled as an escape, a blank as \s
+        (d / "p 3.utb").write_text("\n".join(lines[cut:]) + "\n")
+        k = r.range(0, 1)
+        (d / "wrapesc.utb").write_text("include %s\\x%04x%s\ninclude p\\s3.utb\n" % ("p1.utb"[:k], ord("p1.utb"[k]), "p1.utb"[k + 1:]))
+        names["wrapper_escaped_names"] = str(d / "wrapesc.utb")
         cases = []
         for _ in range(10 if quick else 40):
             inp = [r.choice(alphabet) for _ in range(r.range(1, 14))]
